@@ -95,6 +95,42 @@ def T_fix_off_is_read_only(fix: bool, diff_only: bool, compact: bool, builtin: b
     return HELD
 
 
+RECEIPT_KINDS = [
+    {"type": "normalization", "original": "->", "normalized": "\u2192", "line": 1, "column": 2},
+    {"type": "normalization", "original": '"""', "normalized": '"', "line": 1, "column": 2},
+    {"type": "spec_violation", "subtype": "wrong_case", "original": "NULL", "line": 1, "column": 4, "message": "m", "code": "W_WRONG_CASE"},
+    {"type": "spec_violation", "subtype": "bare_flow", "original": "a\u2192b", "line": 1, "column": 4, "message": "m", "code": "W_BARE_FLOW"},
+    {"type": "lenient_parse", "subtype": "multi_word_coalesce", "original": ["a", "b"], "result": "a b", "context": "c", "line": 1, "column": 4},
+    {"type": "lenient_parse", "subtype": "duplicate_key", "key": "K", "lines": [1, 2], "line": 2, "column": 1, "message": "m"},
+    {"type": "lenient_parse", "subtype": "bare_line_dropped", "original": "x", "line": 1, "column": 1},
+]
+
+
+def T_verdict_independent_of_spelling_receipts(fix: bool, builtin: bool, load_outcome: int, n1: int, profile_i: int, na: int, ka: int) -> int:
+    """
+    pre: 0 <= load_outcome <= 3 and 0 <= n1 <= 1 and profile_i == PROFIX and 1 <= na <= 2 and 0 <= ka <= 6
+    post: _ != 0
+    """
+    # two spellings of the same content reach the tool as the same AST with DIFFERENT reader receipts (a canonical text
+    # has none; an alias / quoted / multi-word spelling has some): validation_status and the set of (code, field) must
+    # not depend on the receipts, under every profile, with and without fix
+    from crosshair.core import realize
+    from harness.toolworld import World, drive, install_validate_stubs
+
+    prof = ["STRICT", "STANDARD", "LENIENT", "ULTRA"][profile_i]
+    ka, na, profile_i = realize(ka), realize(na), realize(profile_i)
+
+    def call(kind, n):
+        w = World()
+        mod = install_validate_stubs(w, parse_outcome=0, n_parse_warnings=0, builtin=builtin, load_outcome=load_outcome, n_errors_first=n1, n_errors_after_fix=0, emit_raises=False, compile_raises=False, zones=False,
+                                     parse_warnings=[dict(RECEIPT_KINDS[kind]) for _ in range(n)])
+        r = drive(mod.ValidateTool().execute(schema="ANY", content="X", fix=fix, profile=prof))
+        pairs = sorted((e.get("code"), e.get("field")) for e in r.get("validation_errors", []))
+        return r.get("validation_status"), pairs, r.get("valid")
+
+    return HELD if call(ka, na) == call(0, 0) else VIOL
+
+
 def _mk_respell_same_ast(shape):
     def R_same_ast(w1: int, w2: int, w3: int, w4: int, drop_end: bool, quote_words: bool) -> int:
         """
@@ -133,6 +169,13 @@ def obligations(tier):
         xh_ob(PROP, "V.verdict-function-of-content-and-read-only", V_metadata_independent, timeout=1500, bound="schema {A: REQ|OPT ∧ ENUM, B: TYPE[NUMBER]} x 4 presence masks x 0-1 unknown field x 3 policies x strict on/off x value from 5 kinds; positions any non-negative integers; reader-style AST (positions, list token witness) vs bare AST", functions=["validator.Validator.validate", "_validate_section", "_validate_unknown_fields", "_to_python_value"]),
         xh_ob(PROP, "T.fix-off-is-plain-canonicalisation", T_fix_off_is_read_only, timeout=1500, bound="fix / diff_only / compact x builtin x file-schema outcome x 0-2 errors x 4 profiles; two calls", functions=["mcp.validate.ValidateTool.execute (STAGE 4/5)"], stubs=["collaborators stubbed with symbolic outcomes"]),
     ]
+    import types
+
+    for pi, pname in enumerate(["STRICT", "STANDARD", "LENIENT", "ULTRA"]):
+        f = types.FunctionType(T_verdict_independent_of_spelling_receipts.__code__, T_verdict_independent_of_spelling_receipts.__globals__, "T_verdict_independent_of_spelling_receipts")
+        f.__doc__ = T_verdict_independent_of_spelling_receipts.__doc__.replace("PROFIX", str(pi))
+        f.__annotations__ = dict(T_verdict_independent_of_spelling_receipts.__annotations__)
+        obs.append(xh_ob(PROP, f"T.verdict-independent-of-spelling-receipts[{pname}]", f, timeout=1200, bound="same AST read with no receipt (canonical spelling) vs. with 1-2 receipts of one of 7 kinds ( alias / triple-quote normalisation, wrong-case and bare-flow spec_violation, multi-word coalesce, duplicate key, dropped line) x this profile x fix x schema outcomes x 0-1 validator errors", functions=["mcp.validate.ValidateTool.execute"], stubs=["collaborators stubbed with symbolic outcomes"]))
     for shape in dm.SHAPES:
         obs.append(xh_ob(PROP, f"R.lenient-layouts-give-the-same-content[{shape}]", _mk_respell_same_ast(shape), timeout=1500, bound=f"shape '{shape}': indentation widths any integers 0 < w1 < w2 < w3 < w4 <= 40, END present/absent, plain words quoted/bare; field-by-field comparison with the content model", functions=["parser.Parser.parse_document (lenient)"]))
     return select(obs, tier)
